@@ -98,6 +98,16 @@ def gen_C16(rng, tier):
     kinds = ['none', 'int'] if tier == 'quick' else G.LABEL_KINDS_ALL
     out = G.histories(rng, n, ['D', 'U'], kinds, maxops=25, reject_p=0.0, force_p=0.4, dd_p=0.06)
     out += [G.forced_then_dedup(rng, rng.choice(['DM', 'UM', 'DW', 'UW'])) for _ in range(n // 2)]
+    # neighbour lists in a shuffled (not ascending) order with forced copies of earlier neighbours, then removeDuplicateEdges and ordinary use
+    for _ in range(n // 4):
+        cls = rng.choice(['D', 'U']); lk = rng.choice(kinds); nv = rng.randint(2, 6); src = rng.randrange(nv)
+        nbrs = rng.sample(range(nv), rng.randint(2, nv)); ops = []
+        for j in nbrs: ops.append('A %d %d %d 0' % (src, j, rng.randint(0, 3)))
+        for _ in range(rng.randint(1, 4)):
+            j = rng.choice(nbrs); a, b = (src, j) if cls == 'D' or rng.random() < 0.5 else (j, src); ops.append('A %d %d %d 1' % (a, b, rng.randint(0, 3)))
+        ops.append('DD')
+        for _ in range(rng.randint(0, 3)): ops.append(rng.choice(['R %d %d' % (src, rng.choice(nbrs)), 'A %d %d 1 0' % (rng.randrange(nv), rng.randrange(nv)), 'DD']))
+        out.append('%s %s %d : %s' % (cls, lk, nv, ' ; '.join(ops)))
     return out
 def _has_forced_dup(c, I):
     # a forced insertion actually created a duplicate: some neighbour-multiset entry or edges() count exceeds 1 at some step
@@ -194,7 +204,22 @@ def gen_C18(rng, tier):
         T = rng.choice([2, 2, 3, 4, 8] if tier == 'quick' else [2, 3, 4, 8, 16]); R = rng.choice([1, 2, 3] if tier == 'quick' else [2, 4, 8])
         sub = ' '.join(str(v) for v in range(7) if rng.random() < 0.45)
         out.append('CONC %s | %d %d %d %d | %s' % (h, T, R, rng.randint(0, 5), rng.randint(0, 5), sub))
+    for _ in range(k // 2):          # multigraph and weighted classes (Dijkstra from two sources on the weighted ones)
+        cls = rng.choice(['DW', 'UW', 'DW', 'UW', 'DM', 'UM'])
+        h = (G.weighted_history if cls in ('DW', 'UW') else G.multi_history)(rng, cls, maxops=rng.choice([6, 14, 25]), sizes=(1, 2, 3, 4, 5, 6))
+        if cls in ('DW', 'UW'):      # Dijkstra needs non-negative weights
+            hd, body = h.split(':', 1); ops = []
+            for o in body.split(';'):
+                t = o.split()
+                if t and t[0] in ('WA', 'WS'): t[3] = str(abs(int(t[3])))
+                if t: ops.append(' '.join(t))
+            h = hd + ': ' + ' ; '.join(ops)
+        T = rng.choice([2, 3, 4, 8]); R = rng.choice([1, 2, 3])
+        n = int(h.split()[2])
+        out.append('CONC %s | %d %d %d %d |' % (h, T, R, rng.randrange(n), rng.randrange(n)))
     return out
+def route_conc(case):
+    return 'concw' if case.split()[1] in ('DM', 'UM', 'DW', 'UW') else 'conc'
 def _sample(rng, xs, k): return xs if len(xs) <= k else rng.sample(xs, k)
 def gen_C17(rng, tier):
     # every kind of case the other checks use (valid calls, rejected calls, malformed files), in smaller numbers
@@ -221,7 +246,7 @@ def kind_histogram(cases):
     return h
 
 PROPS = {
- 'C17': dict(harness=['classes', 'multi', 'paths', 'io'], route=route_all, gen=gen_C17, shrink=None, shards=4, histogram=kind_histogram,
+ 'C17': dict(harness=['classes', 'multi', 'paths', 'io'], route=route_all, gen=gen_C17, shrink=shrink_ops, shards=4, histogram=kind_histogram,
              matrix=lambda tier: CXX_MATRIX if tier == 'quick' else CXX_MATRIX_THOROUGH, nontrivial=lambda c, I: len(c.split(':', 1)[1].strip()) > 8,
              model_name='all class / path-search / IO models (every call defined: no UBk / Undef outcome)',
              rule='a sample of the cases of every other check (histories on all eight classes incl. forced insertions and rejected calls, equality / conversion / constructor / subgraph '
@@ -230,55 +255,55 @@ PROPS = {
                   'clang++ -O2 with ASan+UBSan; thorough adds clang++ -O0 debug STL, g++ -O3 sanitised, g++ -O0 under valgrind memcheck): every configuration must finish every case '
                   'normally and print byte-for-byte what the base configuration printed; non-trivial = non-empty case',
              trusted=['the sanitizers, _GLIBCXX_DEBUG and valgrind detect only the undefined behaviour they instrument; the model-level theorems cover definedness of the logic (indices, iterator positions, loop exits), the build matrix exhibits the rest on the generated cases only']),
- 'C18': dict(harness='conc', gen=gen_C18, shrink=None, flags=['g++', '-std=c++14', '-O1', '-g', '-fsanitize=thread', '-pthread'], histogram=lambda cases: {'threads': {str(t): sum(1 for c in cases if c.split('|')[1].split()[0] == str(t)) for t in (2, 3, 4, 8, 16)}},
+ 'C18': dict(harness=['conc', 'concw'], route=route_conc, gen=gen_C18, shrink=shrink_ops, flags=['g++', '-std=c++14', '-O1', '-g', '-fsanitize=thread', '-pthread'], histogram=lambda cases: {'threads': {str(t): sum(1 for c in cases if c.split('|')[1].split()[0] == str(t)) for t in (2, 3, 4, 8, 16)}, 'classes': kind_histogram([c.split(None, 1)[1] for c in cases])},
              nontrivial=lambda c, I: ';' in c, model_name='ConcModel (interleaving semantics of reader threads; round-robin schedule evaluated) and the class models for the reference observation',
              rule='graphs built by seeded histories (directed / undirected; unlabelled, int, std::string labels; sizes 0-6; forced duplicates), then T in {2,3,4,8} (thorough: to 16) threads '
-                  'x R rounds of EVERY const entry point against the one shared object: all observers and both iterators, ==, copy construction, getReversedGraph / getDirectedGraph / '
+                  'x R rounds of EVERY const entry point against the one shared object (labelled classes; the multigraph and weighted classes with their observers, ==, copy, iteration and findGeodesicsDijkstra from two sources): all observers and both iterators, ==, copy construction, getReversedGraph / getDirectedGraph / '
                   'undirected-from-directed, getSubgraph / getSubgraphWithRemap, six path searches, the writers (own file per thread); each thread starts at another call so that different '
                   'calls overlap; built with -fsanitize=thread (a reported race aborts the case); compared: the single-threaded reference observation with the Coq model and spec, the '
                   'number of thread rounds whose results differ from the single-threaded results (model: 0), the observation after all threads joined; non-trivial = non-empty history',
              trusted=['ThreadSanitizer (g++ 12) observes only the schedules that actually occur in the run; the absence of a data race for all schedules is not proved']),
- 'C13': dict(harness='io', gen=gen_C13, shrink=None, nontrivial=io_nontrivial, model_name='IOModel text routines (getline, findEdgeFromString, stoi, to_string, name table)',
+ 'C13': dict(harness='io', gen=gen_C13, shrink=shrink_ops, nontrivial=io_nontrivial, model_name='IOModel text routines (getline, findEdgeFromString, stoi, to_string, name table)',
              histogram=lambda cases: {'load_cases': sum(1 for c in cases if c.startswith('TXT ')), 'name_loader_cases': sum(1 for c in cases if c.startswith('TXT ') and c.split()[3] == '1'), 'write_reload_cases': sum(1 for c in cases if c.startswith('TXTW'))},
              rule='well-formed text files from a grammar (comment lines, any mix of spaces and tabs before/between/after the two vertex tokens, optional label text, with or without final '
                   'newline; numeric vertices or vertex names) loaded with loadTextEdgeList / loadTextVertexLabeledEdgeList for unlabelled, int (std::stoi) and std::string labels, '
                   'directed and undirected; loaded graph (size, lists in order, labels) and name table compared with the Coq model and with an independent reading of the documented '
                   'format; plus graphs built by histories written with writeTextEdgeList and reloaded (bytes compared with the model writer, reloaded graph == original); '
                   'non-trivial = file with at least one data line'),
- 'C14': dict(harness='io', gen=gen_C14, shrink=None, nontrivial=io_nontrivial, model_name='IOModel binary codec / loader / writer',
+ 'C14': dict(harness='io', gen=gen_C14, shrink=shrink_ops, nontrivial=io_nontrivial, model_name='IOModel binary codec / loader / writer',
              histogram=lambda cases: {'hand_made_files': sum(1 for c in cases if c.startswith('BIN ')), 'write_reload_cases': sum(1 for c in cases if c.startswith('BINW')), 'missing_file': 1},
              rule='hand-made binary files with records in shuffled order for label widths 0 (unlabelled), 1, 2, 4, 8 bytes and float/double bit patterns, directed and undirected, '
                   'loaded with loadBinaryEdgeList; graphs built by histories written with writeBinaryEdgeList: the file must be exactly one little-endian record per edge (compared as a '
                   'multiset of records with the model and the spec), then reloaded and compared (==) with the original after resize; every loader and writer on an unopenable path '
                   '(std::runtime_error); non-trivial = at least one record'),
- 'C15': dict(harness='io', gen=gen_C15, shrink=None, nontrivial=io_nontrivial, model_name='IOModel loaders on truncated / malformed input',
+ 'C15': dict(harness='io', gen=gen_C15, shrink=shrink_ops, nontrivial=io_nontrivial, model_name='IOModel loaders on truncated / malformed input',
              histogram=lambda cases: {'binary_cut_cases': sum(1 for c in cases if c.startswith('BIN ')), 'malformed_text_cases': sum(1 for c in cases if c.startswith('TXT '))},
              rule='EVERY cut offset (0..length) of valid binary files of 0-4 records for all label widths: the loader must return exactly the complete records before the cut; and a '
                   'separate stream of malformed text (blank and one-token lines, non-numeric, negative, overflowing and partly numeric indices, NUL and high bytes, CR, random bytes) mixed '
                   'into valid files: the loader must return a graph or throw a std::exception; harness under ASan+UBSan (a crash or sanitizer report is a violation); '
                   'non-trivial = non-empty input'),
- 'C11': dict(harness='paths', gen=gen_C11, shrink=None, segments=seg_C11, nontrivial=_path_nontrivial, model_name='PathsModel (BFS, parent walk, stack loop)',
+ 'C11': dict(harness='paths', impl_timeout=120, gen=gen_C11, shrink=shrink_ops, segments=seg_C11, nontrivial=_path_nontrivial, model_name='PathsModel (BFS, parent walk, stack loop)',
              histogram=lambda cases: {'directed': sum(1 for c in cases if c.startswith('PATH D')), 'undirected': sum(1 for c in cases if c.startswith('PATH U'))},
              rule=PATH_RULE % 'every directed graph on <=3 vertices and every undirected graph on <=3 (sampled on 4) with self-loops x (all) source/destination pairs, layered and grid families, random graphs to 8 vertices with cycles, several components and forced duplicates (thorough: directed <=4, undirected <=5, random to 12)'),
- 'C12': dict(harness='paths', gen=gen_C12, shrink=None, segments=seg_C12, nontrivial=_path_nontrivial, model_name='Dj.run (choice-driven Dijkstra) following the implementation pop sequence',
+ 'C12': dict(harness='paths', impl_timeout=120, gen=gen_C12, shrink=shrink_ops, segments=seg_C12, nontrivial=_path_nontrivial, model_name='Dj.run (choice-driven Dijkstra) following the implementation pop sequence',
              histogram=lambda cases: {'directed': sum(1 for c in cases if c.startswith('DJ DW')), 'undirected': sum(1 for c in cases if c.startswith('DJ UW'))},
              rule='weighted graphs with exactly representable weights from {0, 1, 2, 5}: every loop-free directed topology on 3 vertices x random weight assignments x all sources (as '
                   'DirectedWeightedGraph or UndirectedWeightedGraph), random graphs to 7 vertices (thorough: 30), zero-weight cycles, ties, layered and grid families; '
                   'findGeodesicsDijkstra on a counting graph type; distances compared exactly with the model (which replays the implementation pop sequence and checks every pop is a '
                   'minimum of the worklist) and with Bellman-Ford on the spec side; the predecessor vector is validated against dist[v] = dist[p] + w(p,v); non-trivial = >= 2 edges'),
- 'C19': dict(harness='paths', gen=gen_C19, adaptive=adaptive_C19, shrink=None, segments=seg_C19, nontrivial=_path_nontrivial, model_name='scan counters of the path-search models',
+ 'C19': dict(harness='paths', impl_timeout=120, gen=gen_C19, adaptive=adaptive_C19, shrink=shrink_ops, segments=seg_C19, nontrivial=_path_nontrivial, model_name='scan counters of the path-search models',
              histogram=lambda cases: {'bfs_cases': sum(1 for c in cases if c.startswith('PATH')), 'dijkstra_cases': sum(1 for c in cases if c.startswith('DJ'))},
              rule='the number of getOutNeighbours calls made by findVertexPredecessors, findAllVertexPredecessors and findGeodesicsDijkstra on a counting graph type, compared with the '
                   'scan counters of the Coq models and with the bounds V, V+E, V+E+1 (E = total length of all neighbour lists): layered graphs of width 2-3 with up to 8 (thorough 12) '
                   'layers and grids (exponentially many shortest paths), zero-weight cycles, random graphs, all digraphs on 3 (thorough: sampled on 4) vertices; non-trivial = >= 2 insertions'),
- 'C10': dict(harness='classes', gen=gen_C10, shrink=None, histogram=lambda cases: {'subset_sizes': {str(k): sum(1 for c in cases if len(c.split('|')[-1].split()) == k) for k in range(0, 7)}},
+ 'C10': dict(harness='classes', gen=gen_C10, shrink=shrink_ops, histogram=lambda cases: {'subset_sizes': {str(k): sum(1 for c in cases if len(c.split('|')[-1].split()) == k) for k in range(0, 7)}},
              nontrivial=lambda c, I: any(len(l.split()) > 2 and l.split()[2] not in ('0', '|') for l in I[1:2]), model_name='TopologyModel.subgraph / subgraph_remap',
              rule='graphs built by seeded histories (directed and undirected, unlabelled / int / std::string labels, self-loops, sizes 0-5) x ALL 2^n vertex subsets for n <= 4 '
                   '(n = 5: empty, full and 10 random subsets); rarely a subset containing an out-of-range vertex (std::out_of_range expected). The harness reports the iteration order '
                   'of its unordered_set; getSubgraph (all observers) and getSubgraphWithRemap (all observers + the returned map) are compared with the Coq model given that order, and '
                   'with the spec: induced subgraph, and its image under the RETURNED map after checking that the map is a bijection onto 0..|S|-1; '
                   'non-trivial = the extracted subgraph has at least one edge'),
- 'C09': dict(harness=['classes', 'multi'], gen=gen_C09, route=route_eq, coq_term=G.coq_term_conv, coq_imports=MW_IMPORTS + ' ConvModel', shrink=None,
+ 'C09': dict(harness=['classes', 'multi'], gen=gen_C09, route=route_eq, coq_term=G.coq_term_conv, coq_imports=MW_IMPORTS + ' ConvModel', shrink=shrink_ops,
              histogram=lambda cases: {'conversion_cases': sum(1 for c in cases if c.startswith('CV')), 'constructor_cases': sum(1 for c in cases if c.startswith('EL'))},
              nontrivial=lambda c, I: ';' in c, model_name='reversed / to_directed / of_directed / of_edge_list models',
              rule='(a) the graph built by a seeded history (directed or undirected, unlabelled / int / std::string labels, sizes 0-4 incl. isolated and zero vertices, self-loops): '
@@ -286,7 +311,7 @@ PROPS = {
                   '== original; (b) explicit edge lists (duplicates, both orientations, loops, index gaps, empty) given to the constructors of all eight classes through vector, list, deque, '
                   'forward_list (and set for unlabelled): all observers of the result, and agreement between containers; compared with the Coq model and the spec images; '
                   'non-trivial = case with at least two operations / edges'),
- 'C06': dict(harness=['classes', 'multi'], gen=gen_C06, route=route_eq, coq_term=G.coq_term_eq, coq_imports=MW_IMPORTS, shrink=None,
+ 'C06': dict(harness=['classes', 'multi'], gen=gen_C06, route=route_eq, coq_term=G.coq_term_eq, coq_imports=MW_IMPORTS, shrink=shrink_ops,
              histogram=lambda cases: {'equal_verdicts': 0},
              nontrivial=lambda c, I: any(l.startswith('I ') for l in I) and ';' in c, model_name='DirectedModel.graph_eqb (operator==) on the final states of two histories',
              rule='pairs of histories on each of the eight graph classes (six implementations x label kinds) from the same initial size: (i) two DIFFERENT constructions of the same '
@@ -300,7 +325,7 @@ PROPS = {
                   'mutators; multigraph/weighted classes: forced insertions (copies of a pair carrying the same value, rarely not) then removeDuplicateEdges then ordinary use; '
                   'all observers after every call compared with the Coq model and with the multiset spec (which abstains while a multigraph/weighted pair is duplicated); '
                   'non-trivial = a forced insertion really created a duplicate entry'),
- 'C07': dict(harness=['classes', 'multi', 'paths'], route=route_all, gen=gen_C07, shrink=None, coq_term=lambda c: coq_term_any(c) if c.split()[0] in ('D', 'U', 'DM', 'UM', 'DW', 'UW') else None, histogram=G.op_histogram, coq_imports=MW_IMPORTS,
+ 'C07': dict(harness=['classes', 'multi', 'paths'], route=route_all, gen=gen_C07, shrink=shrink_ops, coq_term=lambda c: coq_term_any(c) if c.split()[0] in ('D', 'U', 'DM', 'UM', 'DW', 'UW') else None, histogram=G.op_histogram, coq_imports=MW_IMPORTS,
              nontrivial=_has_reject, model_name='the six class models (Throw outcomes, checked accessors)',
              rule='seeded histories on all six graph classes interleaving valid calls with rejected ones: every mutator with an out-of-range vertex (size, size+1, UINT_MAX) in '
                   'either argument position, with and without force, resize to fewer vertices, setEdgeLabel on missing edges, and Q v = every observer taking a vertex asked about '
@@ -313,7 +338,7 @@ PROPS = {
                   'orientations and hasEdge(i,j,l) over a label alphabet are compared with the Coq model and the spec; non-trivial = reaches >=1 edge and contains a removal'),
  'C08': dict(harness=['classes', 'multi'], gen=gen_C08, coq_term=coq_term_any, histogram=G.op_histogram, coq_imports=MW_IMPORTS,
              segments={'D': [0, 6, 7, 8, 9], 'U': [0, 6, 7, 8, 9], 'DM': [0, 5, 6, 7, 8], 'UM': [0, 5, 6, 7, 8], 'DW': [0, 5, 6, 7, 8, 9], 'UW': [0, 5, 6, 7, 8, 9]},
-             nontrivial=_steps_with_edges, model_name='DirectedModel.iterate / UndirectedModel.u_iterate (cursor model) and the observers built on them', shrink=None,
+             nontrivial=_steps_with_edges, model_name='DirectedModel.iterate / UndirectedModel.u_iterate (cursor model) and the observers built on them', shrink=shrink_ops,
              rule='every directed graph on <=3 (thorough: all on <=3, 3000 sampled on 4) vertices and every undirected graph on <=3 (<=4) vertices, edges inserted in a random order, '
                   'for the labelled/unlabelled, multigraph and weighted classes, plus random histories with removals and forced duplicates (sizes 0-6); after every call: '
                   'the vertex sequence of range-for, the multiset yielded by edges(), pre- vs post-increment traversal, a second traversal, begin()==end(), and the users '
@@ -349,11 +374,12 @@ def replay(path):
     hnames = P['harness'] if isinstance(P['harness'], list) else [P['harness']]
     exes = {}
     for h in hnames:
-        if len(hnames) > 1 and runner.default_route(rp['case']) != h: continue
-        exe, cerr, _ = build_harness(h, os.path.join(BUILD, pid), flags=P.get('flags'))
+        if len(hnames) > 1 and (P.get('route') or runner.default_route)(rp['case']) != h: continue
+        fl = rp['flags'].split() if rp.get('configuration') and rp.get('flags') else P.get('flags')      # a build-matrix replay uses the configuration it failed in
+        exe, cerr, _ = build_harness(h, os.path.join(BUILD, pid), flags=fl, tag=('_' + rp['configuration']) if rp.get('configuration') else '')
         if exe is None: print('harness does not compile:', cerr); return 1
         exes[h] = exe
-    S = runner.Session(P, pid, exes)
+    S = runner.Session(dict(P, wrap=rp.get('wrapper')) if rp.get('configuration') else P, pid, exes)
     impl, ms, aborts, verdicts, _ = S.evaluate([rp['case']])
     c = rp['case']
     Il, M, Sp = triples(c, impl.get(c, []), ms.get(c, []))
